@@ -3,6 +3,8 @@ package concurrencylimiter
 import (
 	"context"
 	"sync/atomic"
+
+	"github.com/samsarahq/thunder/verifhook"
 )
 
 // A limiter allows goroutines to run with bounded concurrency.
@@ -56,34 +58,44 @@ const (
 func (h *holder) release() {
 	// If we currently are acquired, release the token. Otherwise, we are either
 	// blocked or already released.
+	verifhook.At("limiter.release.swap", h, len(h.l.ch))
 	if atomic.SwapInt64(&h.status, released) == acquired {
+		verifhook.At("limiter.release.recv", h, len(h.l.ch))
 		<-h.l.ch
 	}
+	verifhook.At("limiter.release.done", h, len(h.l.ch))
 }
 
 // block temporarily gives up the holder's spot in ch while running f.
 func (h *holder) block(f func()) {
 	// If we are currently acquired, temporarily release the token. Otherwise,
 	// we are either blocked or released.
+	verifhook.At("limiter.block.cas", h, len(h.l.ch))
 	if atomic.CompareAndSwapInt64(&h.status, acquired, blocked) {
+		verifhook.At("limiter.block.recv", h, len(h.l.ch))
 		<-h.l.ch
 
 		// Before returning from f() we must reacquire.
 		defer func() {
+			verifhook.At("limiter.block.reacquire", h, len(h.l.ch))
 			// Take a token before claiming to hold one: were status set to acquired
 			// while the token is not yet in the channel, a concurrent release would
 			// receive a token that belongs to another holder and the limit would be
 			// exceeded.
 			h.l.ch <- struct{}{}
+			verifhook.At("limiter.block.cas2", h, len(h.l.ch))
 			// If we are still blocked, we now hold the token again. Otherwise, we just
 			// got released (and that release used our token we gave up), so give the
 			// token back.
 			if !atomic.CompareAndSwapInt64(&h.status, blocked, acquired) {
+				verifhook.At("limiter.block.giveback", h, len(h.l.ch))
 				<-h.l.ch
 			}
+			verifhook.At("limiter.block.done", h, len(h.l.ch))
 		}()
 	}
 
+	verifhook.At("limiter.block.f", h, len(h.l.ch))
 	f()
 }
 
@@ -98,12 +110,15 @@ type ReleaseFunc func()
 func Acquire(ctx context.Context) (context.Context, ReleaseFunc) {
 	l, ok := ctx.Value(limiterKey{}).(*limiter)
 	if !ok {
+		verifhook.At("limiter.acquire.nolimiter")
 		return ctx, func() {}
 	}
 
+	verifhook.At("limiter.acquire.select", l, len(l.ch), cap(l.ch))
 	select {
 	case l.ch <- struct{}{}:
 	case <-ctx.Done():
+		verifhook.At("limiter.acquire.cancelled", l, len(l.ch))
 		return ctx, func() {}
 	}
 
@@ -111,6 +126,7 @@ func Acquire(ctx context.Context) (context.Context, ReleaseFunc) {
 		l:      l,
 		status: acquired,
 	}
+	verifhook.At("limiter.acquire.acquired", h, len(l.ch))
 	ctx = context.WithValue(ctx, holderKey{}, h)
 
 	return ctx, h.release
